@@ -6,7 +6,7 @@ CONE = ["Server/ServerModel.v", "Server/ServerProofs.v", "Props/C05.v", "Dic/Res
         "Server/Protocol.v", "Server/ConcModel.v", "Server/ConcProofs.v", "Server/ConcAtomic.v", "Props/C14.v", "Gen/Protocol.v"]
 THEOREMS = ["C05_init_wf", "C05_step_safe", "C05_no_panic", "C05_fuel_irrelevant", "C05_answer_depends_on_data_only", "C05_no_deadlock"]
 
-ODD_STRINGS = ["", " ", "\n", "\t", "あ い", "漢字", "ABC", "abc", "ー", "ゔ", "１２３", "😀", "a" * 300, "あ" * 120, "\u0000", "　", "き\nあ\ty\t/ア行五段/\n;", "/", ";", "'\"\\"]
+ODD_STRINGS = ["ゎ", "くゎし", "ｱ", "",  " ", "\n", "\t", "あ い", "漢字", "ABC", "abc", "ー", "ゔ", "１２３", "😀", "a" * 300, "あ" * 120, "\u0000", "　", "き\nあ\ty\t/ア行五段/\n;", "/", ";", "'\"\\"]
 
 
 def gen_c05_history(rnd, tier):
@@ -35,7 +35,19 @@ def gen_c05_history(rnd, tier):
                     r, w = r + end, w + end          # consistent pair
                 else:
                     w = w + end                       # inconsistent pair
-            reqs.append({"kind": "register", "wkind": wk, "reading": r, "word": w})
+            if rnd.random() < 0.3 and wk != "Guess":
+                # a new word for exactly what was converted last and is converted next: the answer must show it, as a fresh server would
+                r = rnd.choice(probes)
+                cx = rnd.choice(["Normal", "Normal", "ForeignWord"])
+                reqs.append({"kind": "convert", "input": r, "context": cx})
+                reqs.append({"kind": "register", "wkind": wk, "reading": r, "word": w})
+                reqs.append({"kind": "convert", "input": r, "context": cx})
+                nconv += 2
+            else:
+                reqs.append({"kind": "register", "wkind": wk, "reading": r, "word": w})
+            if rnd.random() < 0.4:
+                probe()
+                nconv += len(probes)
         elif k < 0.65:
             reqs.append({"kind": "confirm", "session": rnd.choice([None, rnd.randrange(nconv), rnd.randrange(nconv)]), "cid": rnd.choice(["0", "1", "99", "-1", "", "x", "0 "])})
         elif k < 0.8:
@@ -68,9 +80,17 @@ def predicate(res, hr):
     if restart_idx is None:
         return False
     before = {}
+    applied = []          # acknowledged and applied noun registrations (reading, word) whose reading the dictionary alphabet spells
     for ev, obs in hr.events[:restart_idx]:
+        if ev["t"] == "register" and obs == {} and ev["wkind"] in ("CommonNoun", "ProperNoun") and ev["reading"] and all(c in ALPHABET for c in ev["reading"]):
+            applied.append((ev["reading"], ev["word"]))
         if ev["t"] == "convert" and obs is not None:
             before[(ev["input"], ev["ctx"])] = obs["texts"]
+            # a freshly started server holding the same user data offers every registered word for its reading
+            for r, w in applied:
+                if ev["input"] == r and len(obs["texts"]) < 100 and w not in obs["texts"]:
+                    res.violation(f"after RegisterWord({r!r}, {w!r}) was acknowledged and applied, converting {r!r} is answered {obs['texts']} - without the word, "
+                                  f"unlike a freshly started server holding the same data", {"base": hr.base, "requests": hr.requests})
     known = False
     _, robs = hr.events[restart_idx]
     if robs and robs.get("before") and robs.get("after"):
